@@ -11,13 +11,7 @@ import numpy as np
 from ..common import Slice, fr, run_driver
 
 MODULE = "PyhmsVerif.Props.C17"
-THEOREMS = [
-    "C17.repair_inBox",
-    "C17.inside_unchanged",
-    "C17.moved_only_if_outside",
-    "C17.clip_nearest_face",
-    "C17.clip_total",
-]
+THEOREMS = ['C17.repair_inBox', 'C17.inside_unchanged', 'C17.moved_only_if_outside', 'C17.clip_nearest_face', 'C17.clip_total', 'C17.toroidal_congr', 'C17.reflect_congr', 'F64.npDivmod_ideal']
 LEVEL = "proof"
 LEVEL_TEXT = "Theorems for all boxes, inputs and rounding functions (in-box, inside-unchanged, clip to nearest face, congruence in ideal arithmetic) about the Lean model of apply_bounds; the model is tied to the NumPy code bit-for-bit by differential testing on adversarial doubles every run."
 LEVEL_NOTE = "Trusted: Lean kernel + 3 standard axioms; the F64 rounding/npy_divmod model (validated, not proved, against NumPy); no-overflow domain. The binary64 deviation from the ideal congruence is monitored, not proved."
